@@ -269,14 +269,14 @@ def run(P, tier="quick"):
                 rops |= exit_ops(P.func(rn, rf))
             wops = exit_ops(P.func(name, file)) if w in rs else set()
             if w in rs and wops and rops and not (wops <= {o for o in rops} | {o + "=" for o in rops if len(o) == 1}):
-                R.violated(Finding("RET-INDEX", {"C16", "C20", "C17"}, file, name, "ordered-chain-direction:" + fld,
+                R.violated(Finding("RET-INDEX", {"C16", "C20", "C17", "C01"}, file, name, "ordered-chain-direction:" + fld,
                                    "%s stops its insertion search on `element index %s new index` but the readers stop scanning on "
                                    "`element index %s key`: the chain order the readers rely on is not the order the writer builds" %
                                    (name, "/".join(sorted(wops)), "/".join(sorted(rops))), P.func(name, file).line))
             elif w in rs:
-                R.ok("RET-INDEX|%s|%s|ordered-chain:%s" % (file, name, fld), {"C16", "C20", "C17"})
+                R.ok("RET-INDEX|%s|%s|ordered-chain:%s" % (file, name, fld), {"C16", "C20", "C17", "C01"})
             else:
-                R.violated(Finding("RET-INDEX", {"C16", "C20"}, file, name, "ordered-chain:" + fld,
+                R.violated(Finding("RET-INDEX", {"C16", "C20", "C17", "C01"}, file, name, "ordered-chain:" + fld,
                                    "%s links elements through %s without searching the insertion point in index order, but %s "
                                    "stops scanning at the first larger index: elements become unreachable" %
                                    (name, fld, ", ".join(sorted(x.split(":")[1] for x in pure_readers))), P.func(name, file).line))
